@@ -14,6 +14,9 @@ import (
 //	createSingleFlight          CreateTreasure runs under createMu and consults/fills creatingTreasures
 //	rechecksObjectUnderGuard    the Increment bodies compare beaconKey.Get(key) with their object after
 //	                            taking the guard
+//	setTestsExistenceUnderGuard gateway Set: for both conditional forms (Overwrite=false, CreateIfNotExist=false) a
+//	                            TreasureExists test guards a return/continue AFTER StartTreasureGuard in the same
+//	                            function literal (tests before the guard may remain as a fast path)
 func init() {
 	Register("C09", Extractor{Import: "Hv.Props.C09", Type: "Hv.C09.Facts", Run: c09Run})
 }
@@ -40,6 +43,7 @@ func c09Run(fs *Facts) {
 		fs.Tri("resetsIdOnEmpty", Unknown, tmp.Where["resetsIdOnEmpty"])
 	}
 
+	c09SetTests(fs)
 	sw, err := Load(c09Swamp)
 	if err != nil {
 		fs.Err("%v", err)
@@ -133,6 +137,34 @@ func c09Create(fs *Facts, f *File) {
 }
 
 func c09Recheck(fs *Facts, f *File) {
+	// repaired shape: every Increment body (and PatchFields) obtains object + guard from a helper that, after
+	// StartTreasureGuard, compares beaconKey.Get(key) with its object inside a retry loop and releases on mismatch
+	helper := f.Func("swamp", "lockCurrentTreasure")
+	helperOK := false
+	if helper != nil {
+		starts := f.CallsSuffix(helper, ".StartTreasureGuard")
+		rels := f.CallsSuffix(helper, ".ReleaseTreasureGuard")
+		loop, cmp := false, false
+		ast.Inspect(helper, func(x ast.Node) bool {
+			switch v := x.(type) {
+			case *ast.ForStmt:
+				loop = true
+			case *ast.BinaryExpr:
+				t := f.Str(v)
+				if len(starts) == 1 && v.Pos() > starts[0].End() && strings.Contains(t, "treasureObj") && (v.Op.String() == "==" || v.Op.String() == "!=") {
+					cmp = true
+				}
+			}
+			return true
+		})
+		gets := 0
+		for _, c := range f.Calls(helper, "s.beaconKey.Get") {
+			if len(starts) == 1 && c.Pos() > starts[0].End() {
+				gets++
+			}
+		}
+		helperOK = len(starts) == 1 && len(rels) >= 1 && loop && cmp && gets >= 1
+	}
 	yes, no := 0, 0
 	where := c09Swamp
 	for _, n := range c09Increments {
@@ -141,31 +173,44 @@ func c09Recheck(fs *Facts, f *File) {
 			fs.Tri("rechecksObjectUnderGuard", Unknown, c09Swamp)
 			return
 		}
+		viaHelper := len(f.Calls(fn, "s.lockCurrentTreasure")) == 1 && len(f.CallsSuffix(fn, ".StartTreasureGuard")) == 0
 		starts := f.CallsSuffix(fn, ".StartTreasureGuard")
-		if len(starts) != 1 {
+		found := viaHelper && helperOK
+		if !viaHelper && len(starts) == 1 {
+			ast.Inspect(fn, func(x ast.Node) bool {
+				if b, ok := x.(*ast.BinaryExpr); ok && b.Pos() > starts[0].End() {
+					t := f.Str(b)
+					if strings.Contains(t, "s.beaconKey.Get(") && strings.Contains(t, "treasureObj") && (b.Op.String() == "!=" || b.Op.String() == "==") {
+						found = true
+					}
+				}
+				return true
+			})
+		} else if !viaHelper {
 			fs.Tri("rechecksObjectUnderGuard", Unknown, c09Swamp+":"+itoa(f.Line(fn)))
 			return
 		}
-		found := false
-		ast.Inspect(fn, func(x ast.Node) bool {
-			if b, ok := x.(*ast.BinaryExpr); ok && b.Pos() > starts[0].End() {
-				t := f.Str(b)
-				if strings.Contains(t, "s.beaconKey.Get(") && strings.Contains(t, "treasureObj") && (b.Op.String() == "!=" || b.Op.String() == "==") {
-					found = true
-				}
-			}
-			return true
-		})
 		if found {
 			yes++
 		} else {
 			no++
-			where = c09Swamp + ":" + itoa(f.Line(starts[0]))
+			where = c09Swamp + ":" + itoa(f.Line(fn))
+		}
+	}
+	// PatchFields must follow the same route
+	if pf, err := Load(c09Patch); err == nil {
+		if fn := pf.Func("swamp", "PatchFields"); fn != nil {
+			if len(pf.Calls(fn, "s.lockCurrentTreasure")) == 1 && helperOK {
+				yes++
+			} else {
+				no++
+				where = c09Patch + ":" + itoa(pf.Line(fn))
+			}
 		}
 	}
 	switch {
 	case no == 0:
-		fs.Tri("rechecksObjectUnderGuard", Yes, where)
+		fs.Tri("rechecksObjectUnderGuard", Yes, c09Swamp+":"+itoa(f.Line(helper)))
 	case yes == 0:
 		fs.Tri("rechecksObjectUnderGuard", No, where)
 	default:
@@ -208,18 +253,82 @@ func c09BodyShape(f *File, fn *ast.FuncDecl) (string, int) {
 		return "unknown", 0
 	}
 	starts := f.CallsSuffix(fn, ".StartTreasureGuard")
+	// object + guard obtained from the re-checking helper: `obj, id, _ := s.lockCurrentTreasure(key)`
+	viaHelper := map[*ast.CallExpr]*ast.Ident{}
+	ast.Inspect(fn, func(x ast.Node) bool {
+		if as, ok := x.(*ast.AssignStmt); ok && len(as.Rhs) == 1 && len(as.Lhs) >= 2 {
+			if c, ok := as.Rhs[0].(*ast.CallExpr); ok && f.Str(c.Fun) == "s.lockCurrentTreasure" {
+				if id, ok := as.Lhs[0].(*ast.Ident); ok {
+					viaHelper[c] = id
+					starts = append(starts, c)
+				}
+			}
+		}
+		return true
+	})
 	if len(starts) == 0 {
 		return "unknown", f.Line(fn)
 	}
+	// the helper's third result ("the key had no record when I fetched it") is a read made BEFORE the guard: it may
+	// only steer the deferred clean-up of the in-flight tracker, never what the body does with the record
+	var flags []*ast.Ident
+	ast.Inspect(fn, func(x ast.Node) bool {
+		if as, ok := x.(*ast.AssignStmt); ok && len(as.Rhs) == 1 && len(as.Lhs) == 3 {
+			if c, ok := as.Rhs[0].(*ast.CallExpr); ok && f.Str(c.Fun) == "s.lockCurrentTreasure" {
+				if id, ok := as.Lhs[2].(*ast.Ident); ok && id.Name != "_" {
+					flags = append(flags, id)
+				}
+			}
+		}
+		return true
+	})
+	if len(flags) > 0 {
+		var defers []*ast.DeferStmt
+		ast.Inspect(fn, func(x ast.Node) bool {
+			if d, ok := x.(*ast.DeferStmt); ok {
+				defers = append(defers, d)
+			}
+			return true
+		})
+		bad := 0
+		ast.Inspect(fn, func(x ast.Node) bool {
+			id, ok := x.(*ast.Ident)
+			if !ok {
+				return true
+			}
+			for _, fl := range flags {
+				if id.Name == fl.Name && id.Pos() != fl.Pos() {
+					in := false
+					for _, d := range defers {
+						if id.Pos() > d.Pos() && id.End() < d.End() {
+							in = true
+						}
+					}
+					if !in && bad == 0 {
+						bad = f.Line(id)
+					}
+				}
+			}
+			return true
+		})
+		if bad != 0 {
+			return "readBeforeAcquire", bad
+		}
+	}
 	res, line := "guarded", f.Line(fn)
 	for _, st := range starts {
-		se, ok := st.Fun.(*ast.SelectorExpr)
-		if !ok {
-			return "unknown", f.Line(st)
-		}
-		obj, ok := se.X.(*ast.Ident)
-		if !ok {
-			return "unknown", f.Line(st)
+		var obj *ast.Ident
+		if id, ok := viaHelper[st]; ok {
+			obj = id
+		} else {
+			se, ok := st.Fun.(*ast.SelectorExpr)
+			if !ok {
+				return "unknown", f.Line(st)
+			}
+			obj, ok = se.X.(*ast.Ident)
+			if !ok {
+				return "unknown", f.Line(st)
+			}
 		}
 		scope := c09Scope(fn, st)
 		var accesses []*ast.CallExpr
@@ -258,6 +367,43 @@ func c09BodyShape(f *File, fn *ast.FuncDecl) (string, int) {
 				return "readBeforeAcquire", f.Line(a)
 			}
 		}
+		// uses of the object behind obj.Save(id): in immediate-write mode SaveFunction has released the guard by then
+		if saves := f.Calls(scope, obj.Name+".Save"); len(saves) > 0 {
+			last := saves[len(saves)-1]
+			late, lateLine := "", 0
+			ast.Inspect(scope, func(x ast.Node) bool {
+				c, ok := x.(*ast.CallExpr)
+				if !ok || c.Pos() <= last.End() {
+					return true
+				}
+				if sel, ok := c.Fun.(*ast.SelectorExpr); ok {
+					if id, ok := sel.X.(*ast.Ident); ok && id.Name == obj.Name {
+						if sel.Sel.Name == "ReleaseTreasureGuard" || !c09IsAccess(sel.Sel.Name) {
+							return true
+						}
+						if strings.HasPrefix(sel.Sel.Name, "Set") || strings.HasPrefix(sel.Sel.Name, "Reset") || strings.HasPrefix(sel.Sel.Name, "Body") ||
+							strings.HasPrefix(sel.Sel.Name, "LoadFrom") || sel.Sel.Name == "Save" {
+							late, lateLine = "writeAfterRelease", f.Line(c)
+						} else if late == "" {
+							late, lateLine = "respAfterSave", f.Line(c)
+						}
+						return true
+					}
+				}
+				for _, a := range c.Args {
+					if id, ok := a.(*ast.Ident); ok && id.Name == obj.Name && late == "" {
+						late, lateLine = "respAfterSave", f.Line(c)
+					}
+				}
+				return true
+			})
+			if late == "writeAfterRelease" {
+				return late, lateLine
+			}
+			if late == "respAfterSave" && res == "guarded" {
+				res, line = late, lateLine
+			}
+		}
 		if !deferred {
 			first := plainRel[0]
 			for _, r := range plainRel {
@@ -286,7 +432,7 @@ func c09Shape(fs *Facts, sw *File) {
 	for _, n := range c09Increments {
 		items = append(items, item{sw, c09Swamp, "swamp", n})
 	}
-	items = append(items, item{sw, c09Swamp, "swamp", "deleteHandler"}, item{sw, c09Swamp, "swamp", "CloneAndDeleteTreasuresByKeys"})
+	items = append(items, item{sw, c09Swamp, "swamp", ccDeleteHandlerName(sw)}, item{sw, c09Swamp, "swamp", "CloneAndDeleteTreasuresByKeys"})
 	if pf, err := Load(c09Patch); err == nil {
 		items = append(items, item{pf, c09Patch, "swamp", "PatchFields"})
 	} else {
@@ -311,10 +457,96 @@ func c09Shape(fs *Facts, sw *File) {
 		case "readBeforeAcquire":
 			result, where = r, w
 		case "writeAfterRelease":
+			if result == "guarded" || result == "respAfterSave" {
+				result, where = r, w
+			}
+		case "respAfterSave":
 			if result == "guarded" {
 				result, where = r, w
 			}
 		}
 	}
 	fs.Enum("bodyShape", result, where)
+}
+
+// c09SetTests decides setTestsExistenceUnderGuard.
+func c09SetTests(fs *Facts) {
+	const name = "setTestsExistenceUnderGuard"
+	gw, err := Load(c09Gateway)
+	if err != nil {
+		fs.Err("%v", err)
+		fs.Tri(name, Unknown, c09Gateway)
+		return
+	}
+	set := gw.Func("Gateway", "Set")
+	if set == nil {
+		fs.Tri(name, Unknown, c09Gateway)
+		return
+	}
+	// which request flags make the outcome depend on existence at all
+	usesOverwrite, usesCreate := gw.Contains(set, "Overwrite"), gw.Contains(set, "GetCreateIfNotExist")
+	if !usesOverwrite && !usesCreate {
+		fs.Tri(name, Yes, c09Gateway+":"+itoa(gw.Line(set)))
+		return
+	}
+	guards := gw.CallsSuffix(set, ".StartTreasureGuard")
+	if len(guards) != 1 {
+		fs.Tri(name, Unknown, c09Gateway+":"+itoa(gw.Line(set)))
+		return
+	}
+	// the function literal that holds the guard
+	var lit *ast.FuncLit
+	ast.Inspect(set, func(x ast.Node) bool {
+		if fl, ok := x.(*ast.FuncLit); ok && fl.Pos() < guards[0].Pos() && guards[0].End() < fl.End() {
+			lit = fl // innermost wins (Inspect goes outside-in)
+		}
+		return true
+	})
+	if lit == nil {
+		fs.Tri(name, Unknown, c09Gateway+":"+itoa(gw.Line(guards[0])))
+		return
+	}
+	// variables assigned from TreasureExists after the guard
+	existVars := map[string]bool{}
+	ast.Inspect(lit, func(x ast.Node) bool {
+		if as, ok := x.(*ast.AssignStmt); ok && as.Pos() > guards[0].End() && len(as.Lhs) == 1 && len(as.Rhs) == 1 &&
+			strings.Contains(gw.Str(as.Rhs[0]), ".TreasureExists(") {
+			existVars[gw.Str(as.Lhs[0])] = true
+		}
+		return true
+	})
+	okOverwrite, okCreate := !usesOverwrite, !usesCreate
+	ast.Inspect(lit, func(x ast.Node) bool {
+		ifs, ok := x.(*ast.IfStmt)
+		if !ok || ifs.Pos() < guards[0].End() {
+			return true
+		}
+		cond := gw.Str(ifs.Cond)
+		tests := strings.Contains(cond, ".TreasureExists(")
+		for v := range existVars {
+			if strings.Contains(cond, v) {
+				tests = true
+			}
+		}
+		leaves := false
+		if n := len(ifs.Body.List); n > 0 {
+			switch ifs.Body.List[n-1].(type) {
+			case *ast.ReturnStmt:
+				leaves = true
+			case *ast.BranchStmt:
+				leaves = true
+			}
+		}
+		if tests && leaves {
+			if strings.Contains(cond, "Overwrite") {
+				okOverwrite = true
+			}
+			if strings.Contains(cond, "CreateIfNotExist") {
+				okCreate = true
+			}
+		}
+		return true
+	})
+	where := c09Gateway + ":" + itoa(gw.Line(guards[0]))
+	fs.Tri(name, TriOf(okOverwrite && okCreate), where)
 }
